@@ -43,7 +43,7 @@ ASSUME = [
     "command names are ASCII ([A-Za-z0-9_]+ for generated ones); event numbers stay below 2^32",
     "un-registration (~EventDef, ~ClassDef) is outside the property: between cases the harness destroys the host objects and puts EventDef::defCount back to the built-in value (the destructor also decrements it for duplicates that never incremented it)",
     "responses inherited from a built-in class are not invoked (their handlers act on engine state): for them the harness reports the decision taken from the real NamespaceManager and the real GetResponse",
-    "ClassDefExt (unused by the engine) is not modelled",
+    "ClassDefExt (unused by the engine) is exercised and modelled as the public API behaves today (InitClassDef applies only the most recently constructed extension, after all tables are built — so subclasses do not inherit it — and consumes the list: notes/C16-design.md); the property's quantifier does not cover what an extension SHOULD do, only that it touches no other class's table",
     "a duplicate EventDef takes the namespace of the first registrant (that is what GetEventDef returns); the reference monitor follows the same reading",
     "class hierarchies are acyclic (C++ types): InitEvents over a cyclic parent chain is answered bad-op by the model",
 ]
@@ -71,6 +71,9 @@ class Monitor:
         self.first = []        # upper names of first registrants, in creation order
         self.mode, self.flist = 0, []
         self.nbuiltin_cls = 0
+        self.exts = []         # ClassDefExt::list, head first: (pseudo class id, class, decls)
+        self.next = 0
+        self.patched = {}      # (class, num) -> (pseudo class id, index): written by InitClassDef in the last build
 
     def snapshot(self):
         return (list(self.evs), list(self.clss), dict(self.key2num), dict(self.num2key), dict(self.num_ns), set(self.names), list(self.first))
@@ -80,6 +83,7 @@ class Monitor:
         self.key2num, self.num2key, self.num_ns, self.names = dict(snap[2]), dict(snap[3]), dict(snap[4]), set(snap[5])
         self.first = list(snap[6])
         self.mode, self.flist = 0, []
+        self.exts, self.next, self.patched = [], 0, {}
 
     def last_name(self):
         """the name that receives the highest index of the name table: LoadEvents walks the event
@@ -99,6 +103,11 @@ class Monitor:
         return True
 
     def nearest(self, c, num):
+        """nearest declaring ancestor; a slot of the class ITSELF written by its extension (ClassDefExt, as
+        InitClassDef applies it today: after all tables are built, so no subclass inherits it, and only the
+        most recently constructed extension of the list) answers the extension's response"""
+        if (c, num) in self.patched:
+            return self.patched[(c, num)]
         seen = 0
         while c and seen <= len(self.clss):
             parent, decls = self.clss[c - 1]
@@ -143,6 +152,23 @@ class Monitor:
                 a, b = d.split(":")
                 decls.append((int(a), b == "1"))
             self.clss.append((parent, decls))
+        elif op == "ext" and o[0] == "ext":
+            self.next += 1
+            decls = []
+            for d in t[2:]:
+                a, b = d.split(":")
+                decls.append((int(a), b == "1"))
+            self.exts.insert(0, (1000000 + self.next, int(t[1]), decls))
+        elif op == "init" and o[0] == "init":
+            # BuildEventResponses rebuilds every table, then InitClassDef: `for (ext = list; list; list = list->next)`
+            # applies the head extension (only) and consumes the list
+            self.patched = {}
+            if self.exts:
+                x, c, decls = self.exts[0]
+                for i, (ev, has) in enumerate(decls):
+                    if has and 1 <= ev <= len(self.evs):
+                        self.patched[(c, self.evs[ev - 1][3])] = (x, i)
+                self.exts = []
         elif op == "endbuiltins":
             self.nbuiltin_cls = len(self.clss)
             self.base = self.snapshot()
@@ -398,6 +424,8 @@ def gen_case(rng, reg, size=None):
     used_names = []
     rounds = 1 if rng.random() < 0.75 else 2
     nhandlers = 0
+    storemix = rng.random() < 0.7
+    extmix = rng.random() < 0.6
     for rnd in range(rounds):
         nev = rng.randint(1, 10) if size is None else size
         for _ in range(nev):
@@ -407,7 +435,10 @@ def gen_case(rng, reg, size=None):
             if rng.random() < 0.03:                      # illegal stream
                 lines.append(rng.choice(["event %s Q 0" % nm, "event %s N 7" % nm, "event bad-name N 0", "event %s" % nm]))
                 continue
-            lines.append("event %s %s %d" % (nm, kind, ns))
+            # where the object lives: own heap object, or a growable container that reallocates (the object
+            # is move-constructed every time), or move-assigned onto a moved-from shell
+            store = rng.choice(["", "", " h", " v", " v", " c", " c", " a"]) if storemix else ""
+            lines.append("event %s %s %d%s" % (nm, kind, ns, store))
             nev_total += 1
             host_ev.append(nev_total)
             used_names.append(nm)
@@ -419,7 +450,7 @@ def gen_case(rng, reg, size=None):
             else:
                 parent = rng.choice(roots)
             decls = []
-            for _ in range(rng.choice([0, 1, 1, 2, 2, 3, 5])):
+            for _ in range(rng.choice([0, 0, 1, 1, 2, 2, 3, 5])):
                 ev = rng.choice(host_ev) if host_ev and rng.random() < 0.85 else rng.randint(1, reg.nev)
                 has = 0 if rng.random() < 0.15 else 1
                 decls.append("%d:%d" % (ev, has))
@@ -433,6 +464,18 @@ def gen_case(rng, reg, size=None):
             ncls_total += 1
             host_cls.append(ncls_total)
             depth[ncls_total] = depth.get(parent, 0) + 1
+        if extmix and host_cls:
+            # class extensions (ClassDefExt): mostly one per build, sometimes two / on the same class
+            for _ in range(rng.choice([1, 1, 1, 2])):
+                c = rng.choice(host_cls)
+                xd = []
+                for _ in range(rng.choice([1, 1, 2, 3])):
+                    ev = rng.choice(host_ev) if host_ev and rng.random() < 0.9 else rng.randint(1, reg.nev)
+                    xd.append("%d:%d" % (ev, 0 if rng.random() < 0.1 else 1))
+                if rng.random() < 0.03:
+                    lines.append(rng.choice(["ext %d 1:1" % listener, "ext 0 1:1", "ext %d %d:1" % (c, nev_total + 4), "ext %d 0:1" % c, "ext"]))
+                else:
+                    lines.append("ext %d %s" % (c, " ".join(xd)))
         if host_cls and rng.random() < 0.05:
             lines.append("row %d" % rng.choice(host_cls))      # before init: illegal
         lines.append("init")
@@ -468,6 +511,57 @@ def gen_case(rng, reg, size=None):
     return lines
 
 
+def gen_ext_case(rng, reg):
+    """directed family: a parent that declares handlers, children / grandchildren with EMPTY response lists (and
+    some with their own), a ClassDefExt on one of the empty ones that overrides a command of the parent and adds
+    a new one; every table and every (class, command) call is observed: the extension may show in the extended
+    class only — not in its parent, its siblings or its subclasses.  Events live in growable containers."""
+    lines = ["reset"]
+    listener = reg.cls("Listener") or 1
+    nev, ncls = reg.nev, reg.ncls
+    names = rng.sample(["xa", "xb", "xc", "xd", "remove", "owner"], rng.randint(3, 5))
+    evs = []
+    for nm in names:
+        ns = rng.choice([0, 0, 1, 2, 3])
+        lines.append("event %s %s %d%s" % (nm, rng.choice(["N", "N", "R"]), ns, rng.choice(["", " v", " c", " a"])))
+        nev += 1
+        evs.append(nev)
+    root = rng.choice([listener, listener, reg.cls("SimpleEntity") or listener, 0])
+    pd = ["%d:1" % e for e in rng.sample(evs, rng.randint(1, len(evs) - 1))]
+    lines.append("class %d 0 %s" % (root, " ".join(pd)))
+    ncls += 1
+    parent = ncls
+    kids = []
+    for _ in range(rng.randint(2, 4)):
+        under = parent if not kids or rng.random() < 0.6 else rng.choice(kids)
+        own = [] if rng.random() < 0.7 else ["%d:%d" % (rng.choice(evs), rng.choice([1, 1, 0]))]
+        lines.append(("class %d %d %s" % (under, rng.choice([0, 0, 1]), " ".join(own))).strip())
+        ncls += 1
+        kids.append(ncls)
+    target = rng.choice(kids)
+    xd = ["%d:1" % e for e in rng.sample(evs, rng.randint(1, min(3, len(evs))))]
+    lines.append("ext %d %s" % (target, " ".join(xd)))
+    allc = [parent] + kids
+    for rnd in range(rng.choice([1, 1, 2])):
+        lines.append("init")
+        for c in allc:
+            lines.append("row %d" % c)
+        for flt in ["filter 0"] + rng.sample(["filter 1", "filter 1 1", "filter 2 1", "filter 2 2 3", "filter 1 2 3"], 2):
+            lines.append(flt)
+            for c in allc:
+                lines.append("drow %d" % c)
+                for nm in names:
+                    for k in ("N", "R"):
+                        lines.append("call %d %s %s %s" % (c, rng.choice(["script", "script", "ret", "proc"]), k, rng.choice(variants(nm, rng))))
+        if rnd == 0 and rng.random() < 0.5:
+            # a second round: one more event (the containers grow again) and possibly a new extension
+            lines.append("event %s N %d%s" % (rng.choice(names).upper() + "2", rng.choice([0, 1]), rng.choice([" v", " c"])))
+            nev += 1
+            if rng.random() < 0.6:
+                lines.append("ext %d %d:1" % (rng.choice(kids), nev))
+    return lines
+
+
 def exhaustive(reg, maxlen):
     """every history of `maxlen` registrations over a small alphabet (events f/F/remove in two
     kinds and two namespaces; classes under Listener or under the latest host class, with five
@@ -475,7 +569,8 @@ def exhaustive(reg, maxlen):
     listener = reg.cls("Listener") or 1
     ev_ops = [("E", n, k, ns) for n in ("zq", "ZQ", "remove") for k in ("N", "G") for ns in (0, 1)]
     cls_ops = [("C", p, shape) for p in ("L", "P") for shape in range(5)]
-    alphabet = ev_ops + cls_ops
+    ext_ops = [("X", which) for which in (0, 1)]       # ClassDefExt on the latest host class: first / latest event
+    alphabet = ev_ops + cls_ops + ext_ops
     cases = []
     for hist in itertools.product(alphabet, repeat=maxlen):
         if not any(h[0] == "C" for h in hist):
@@ -483,11 +578,17 @@ def exhaustive(reg, maxlen):
         lines = ["reset"]
         evs, clss = [], []
         nev, ncls = reg.nev, reg.ncls
-        for h in hist:
+        for hi, h in enumerate(hist):
             if h[0] == "E":
-                lines.append("event %s %s %d" % (h[1], h[2], h[3]))
+                # namespaced events alternate between the growable containers (moved when the next one arrives)
+                lines.append("event %s %s %d%s" % (h[1], h[2], h[3], ["", " v", " c", " a"][(hi + h[3] * 2) % 4] if h[3] else ""))
                 nev += 1
                 evs.append(nev)
+            elif h[0] == "X":
+                if not clss:
+                    lines.append("ext %d 1:1" % listener)      # a built-in class: rejected on both sides
+                else:
+                    lines.append("ext %d %d:1" % (clss[-1], (evs[0] if h[1] == 0 else evs[-1]) if evs else 1))
             else:
                 parent = clss[-1] if (h[1] == "P" and clss) else listener
                 e1 = evs[0] if evs else 1
@@ -548,7 +649,7 @@ def witness(case, failing_line):
         if l == failing_line:
             keep.append(l)
             break
-        if t in ("reset", "event", "class", "init", "filter"):
+        if t in ("reset", "event", "class", "ext", "init", "filter"):
             keep.append(l)
     return keep
 
@@ -643,6 +744,17 @@ def check(ctx):
             bad += run(batch)
             batch = []
     bad += run(batch)
+    # directed: empty response lists + ClassDefExt, events in growable containers
+    xrng = ctx.rng("ext")
+    nx = 60 if quick else 1200
+    batch = []
+    for i in range(nx):
+        batch.append(("ext:%d" % i, gen_ext_case(xrng, reg)))
+        if len(batch) == 20:
+            bad += run(batch)
+            batch = []
+    bad += run(batch)
+    ctx.stats["ext_cases"] = nx
     # bounded-exhaustive registrations
     exh = exhaustive(reg, 2 if quick else 3)
     ctx.stats["exhaustive_histories"] = len(exh)
@@ -667,8 +779,8 @@ def check(ctx):
     ctx.samples = [gen_case(ctx.rng("sample"), reg, size=2)]
     cov = {
         "evaluations": d.cases, "distinct_nontrivial": len(d.distinct),
-        "rule": "(T) the whole built-in registry (%d events, %d classes) x %d filter settings, exhaustive; (D) %d random host hierarchies (1-7 classes per round, depth <= 5, 1-10 events per round over case variants of 1-5 base names incl. built-in names, null handlers, duplicates, namespaces, 1-2 build rounds, 3%% illegal lines), each interrogated exhaustively (every table row, every (class, name, kind) invoked for 3-4 filter settings); every history of the stated length over a 22-operation alphabet; non-trivial = at least one answered query; distinct by SHA-1 of the case lines" % (
-            reg.nev, reg.ncls, len(FILTERS), ncases),
+        "rule": "(T) the whole built-in registry (%d events, %d classes) x %d filter settings, exhaustive; (D) %d random host hierarchies (1-7 classes per round, depth <= 5, 1-10 events per round over case variants of 1-5 base names incl. built-in names, null handlers, duplicates, namespaces, 1-2 build rounds, 3%% illegal lines), each interrogated exhaustively (every table row, every (class, name, kind) invoked for 3-4 filter settings); %d directed cases with empty response lists + ClassDefExt extensions and events kept in growable containers (std::vector / con::Container: moved on reallocation; move assignment); every history of the stated length over a 24-operation alphabet; non-trivial = at least one answered query; distinct by SHA-1 of the case lines" % (
+            reg.nev, reg.ncls, len(FILTERS), ncases, nx),
         "op_lines": d.lines, "op_histogram": d.hist, "model_answer_kinds": d.outkinds,
         "exhaustive": False,
     }
